@@ -52,6 +52,7 @@ def run(repo, rep):
     rule_random(repo, rep)
     rule_order(repo, rep)
     rule_singletons(repo, rep)
+    rule_shared_tables(repo, rep)
     # the graph name is the input file's base name (path entry points) or a constant (convert_bytes): nothing that is written to the
     # output model - subgraph names prefix the command-stream / flash / scratch tensor names - may be derived from it
     rd = repo.mod("tflite_reader")
@@ -347,7 +348,8 @@ def rule_random(repo, rep):
 
 def rule_order(repo, rep):
     n = 0
-    for mname in ("tflite_writer", "npu_serialisation", "tensor_allocation", "live_range", "extract_npu_subgraphs", "pass_packing", "high_level_command_stream_generator", "greedy_allocation"):
+    for mname in ("tflite_writer", "npu_serialisation", "tensor_allocation", "live_range", "extract_npu_subgraphs", "pass_packing", "high_level_command_stream_generator", "greedy_allocation",
+                  "vela", "architecture_features", "compiler_driver", "model_reader", "scheduler", "cascade_builder"):
         m = repo.mod(mname)
         for q, fn in m.functions.items():
             sets = set()
@@ -402,6 +404,16 @@ def rule_order(repo, rep):
                                       "a list is built in set iteration order (hash / identity order)")
                             continue
                         rep.bad("C14-c", site, f"comprehension over set `{src.id}` builds an ordered result: {norm(par)[:80] if par is not None else ''}", "set iteration order is hash / identity order")
+                # list(S) / tuple(S): materialising a set as a sequence keeps its hash / identity order
+                if isinstance(node, ast.Call) and call_name(node) in ("list", "tuple") and len(node.args) == 1:
+                    a0 = node.args[0]
+                    inline_set = isinstance(a0, (ast.Set, ast.SetComp)) or (isinstance(a0, ast.Call) and call_name(a0) in ("set", "frozenset"))
+                    if inline_set or (isinstance(a0, ast.Name) and a0.id in sets):
+                        par = m.parents.get(node)
+                        consumer = call_name(par) if isinstance(par, ast.Call) else None
+                        n += 1
+                        rep.check(consumer in ("sorted", "set", "frozenset", "len", "sum", "max", "min", "any", "all"), "C14-c", site, f"`{str(norm(node))[:70]}` does not fix the order of a set's elements",
+                                  "a set is turned into a sequence: for strings the order depends on PYTHONHASHSEED, for objects on memory addresses (e.g. which of two configuration files is read last)")
                 # sorted(S or derived, key=...) with a projecting key
                 if isinstance(node, ast.Call) and call_name(node) == "sorted" and node.keywords and node.args:
                     a0 = node.args[0]
@@ -536,3 +548,46 @@ def rule_singletons(repo, rep):
                         rep.check(ok, "C14-e", f"ethosu/vela/{m.name}.py:{q}", f"read of self.{attr} (process-wide {cn} instance) is preceded by an assignment in the same call",
                                   f"`self.{attr}` is read at line {x.lineno} before this call assigns it: the value left by an earlier operator / compilation leaks into the output")
     rep.floor("C14-e", 1)
+
+
+def rule_shared_tables(repo, rep):
+    """(a) objects that live in class-level tables (the rows of ArchitectureFeatures.accelerator_configs and the Block /
+    granule objects inside them, reached as arch.config.<field>) are shared by every architecture object of the process: no
+    function stores through them or through a local alias of them."""
+    import re as _re
+
+    SHARED = _re.compile(r"(^|[.])config[.](ofm_ublock|ifm_ublock|shram_granules)($|[.]|[\[])|accelerator_configs")
+    n = 0
+    for m in repo.core_modules():
+        if m.name.startswith("tosa"):
+            continue
+        for q, fn in m.functions.items():
+            alias = set()
+            for st in walk_no_nested(fn):
+                if isinstance(st, ast.Assign) and len(st.targets) == 1 and isinstance(st.targets[0], ast.Name) and isinstance(st.value, (ast.Attribute, ast.Subscript)) and SHARED.search(str(norm(st.value))):
+                    alias.add(st.targets[0].id)
+            reads = [x for x in ast.walk(fn) if isinstance(x, (ast.Attribute, ast.Subscript)) and SHARED.search(str(norm(x)))]
+            if not reads and not alias:
+                continue
+            n += 1
+            muts = []
+            for st in walk_no_nested(fn):
+                tg = []
+                if isinstance(st, ast.Assign):
+                    tg = [x for t in st.targets for x in (t.elts if isinstance(t, ast.Tuple) else [t])]
+                elif isinstance(st, ast.AugAssign):
+                    tg = [st.target]
+                for t in tg:
+                    if isinstance(t, (ast.Attribute, ast.Subscript)):
+                        base = t.value
+                        if (isinstance(base, ast.Name) and base.id in alias) or SHARED.search(str(norm(base))):
+                            muts.append(str(norm(st))[:70])
+                if isinstance(st, ast.Expr) and isinstance(st.value, ast.Call) and isinstance(st.value.func, ast.Attribute) and st.value.func.attr in MUTATORS:
+                    base = st.value.func.value
+                    if (isinstance(base, ast.Name) and base.id in alias) or SHARED.search(str(norm(base))):
+                        muts.append(str(norm(st))[:70])
+            rep.check(not muts, "C14-a", f"ethosu/vela/{m.name}.py:{q}", "the shared accelerator table objects are only read",
+                      f"{muts[:2]}: the object belongs to the class-level accelerator table shared by every compilation of the process; after this statement every later compilation for that "
+                      "accelerator derives block sizes and cycle estimates from the changed micro-block")
+    if n < 3:
+        raise AnalysisError(f"shared accelerator table readers: only {n} found")
